@@ -566,10 +566,14 @@ pub fn generate(seed: u64, focus: &str, _tier: Tier) -> AgentScenario {
         StoreFaultCfg::None
     };
     let fake = if focus == "C04F" {
+        let close_input = root.sub("close-lane-input").chance(1, 5);
         Some(super::fake::FailPlan {
-            lane: g.rng.pick(&["val", "tval", "map"]).to_string(),
+            lane: if close_input { g.rng.pick(&["map", "map", "map"]).to_string() } else { g.rng.pick(&["val", "tval", "map"]).to_string() },
             after_requests: g.rng.range(0, 25) as u32,
-            mode: if g.rng.chance(1, 2) { if root.sub("torn-lane-frame").chance(1, 2) { super::fake::FailMode::TornFrame } else { super::fake::FailMode::Garbage } } else { super::fake::FailMode::DropIo },
+            mode: if close_input {
+                let _ = (g.rng.chance(1, 2), root.sub("torn-lane-frame").chance(1, 2));
+                super::fake::FailMode::CloseInput
+            } else if g.rng.chance(1, 2) { if root.sub("torn-lane-frame").chance(1, 2) { super::fake::FailMode::TornFrame } else { super::fake::FailMode::Garbage } } else { super::fake::FailMode::DropIo },
         })
     } else {
         None
